@@ -39,6 +39,7 @@ type stats struct {
 	MapRanges    int            `json:"map_ranges"`
 	NetSeams     int            `json:"net_seams"`
 	AllocGuards  int            `json:"alloc_guards"`
+	ChanHoists   int            `json:"chan_operand_hoists"`
 	Pools        int            `json:"sync_pool_calls"`
 	Skipped      []string       `json:"skipped"`
 	PerPackage   map[string]int `json:"sites_per_package"`
@@ -93,16 +94,90 @@ func isTerminating(s ast.Stmt) bool {
 	return false
 }
 
+// hoistChanOperand models the window between the evaluation of a channel operand and the channel
+// operation itself (a goroutine can be preempted there; fields holding channels may be replaced or the
+// channel closed in between): for `X <- v`, `<-X`, `a[, ok] := <-X`, `if a, ok := <-X; ...` and selects
+// with a single communication clause, X is evaluated into a temporary first, then the task yields, then
+// the operation runs on the temporary.
+func hoistChanOperand(s ast.Stmt) []ast.Stmt {
+	if !yieldsOn {
+		return nil
+	}
+	var target *ast.Expr
+	recvOf := func(e ast.Expr) *ast.Expr {
+		if u, ok := e.(*ast.UnaryExpr); ok && u.Op == token.ARROW {
+			return &u.X
+		}
+		return nil
+	}
+	simple := func(st ast.Stmt) *ast.Expr {
+		switch x := st.(type) {
+		case *ast.SendStmt:
+			return &x.Chan
+		case *ast.ExprStmt:
+			return recvOf(x.X)
+		case *ast.AssignStmt:
+			if len(x.Rhs) == 1 {
+				return recvOf(x.Rhs[0])
+			}
+		}
+		return nil
+	}
+	switch x := s.(type) {
+	case *ast.SendStmt, *ast.ExprStmt, *ast.AssignStmt:
+		target = simple(s)
+	case *ast.IfStmt:
+		if x.Init != nil {
+			target = simple(x.Init)
+		}
+	case *ast.SelectStmt:
+		n := 0
+		var comm ast.Stmt
+		for _, c := range x.Body.List {
+			if cc := c.(*ast.CommClause); cc.Comm != nil {
+				n++
+				comm = cc.Comm
+			}
+		}
+		if n == 1 {
+			target = simple(comm)
+		}
+	}
+	if target == nil {
+		return nil
+	}
+	if id, ok := (*target).(*ast.Ident); ok && id.Name == "nil" {
+		return nil
+	}
+	t := info.TypeOf(*target)
+	if t == nil {
+		return nil
+	}
+	if _, isChan := t.Underlying().(*types.Chan); !isChan {
+		return nil
+	}
+	tmp := newTmp("ch")
+	pos := (*target).Pos()
+	pre := []ast.Stmt{&ast.AssignStmt{Lhs: []ast.Expr{tmp}, Tok: token.DEFINE, Rhs: []ast.Expr{*target}}}
+	*target = tmp
+	st.Yields++
+	st.ChanHoists++
+	pre = append(pre, &ast.ExprStmt{X: rt("Yield", site(pos, "chanop"))})
+	return pre
+}
+
 func instrList(list []ast.Stmt) []ast.Stmt {
 	var out []ast.Stmt
 	var lastOrig ast.Stmt
 	for _, s := range list {
 		pos := s.Pos()
 		lastOrig = s
+		hoisted := hoistChanOperand(s)
 		ns := instrStmt(s)
 		if y := yieldStmt(pos, "pre"); y != nil {
 			out = append(out, y)
 		}
+		out = append(out, hoisted...)
 		out = append(out, ns...)
 	}
 	if lastOrig != nil && !isTerminating(lastOrig) {
@@ -570,6 +645,10 @@ func instrSelect(sel *ast.SelectStmt, label *ast.Ident) ast.Stmt {
 	}
 	var all []ast.Stmt
 	all = append(all, pre...)
+	if yieldsOn {
+		st.Yields++
+		all = append(all, &ast.ExprStmt{X: rt("Yield", site(sel.Pos(), "selops"))})
+	}
 	all = append(all, &ast.AssignStmt{Lhs: []ast.Expr{chosen}, Tok: token.DEFINE, Rhs: []ast.Expr{&ast.UnaryExpr{Op: token.SUB, X: lit(1)}}})
 	all = append(all, poll, ifNone, sw)
 	return &ast.BlockStmt{List: all}
